@@ -16,7 +16,7 @@ XiOf(g, N) ==
   CASE g = "uni" -> Tup([k \in 1..N + 1 |-> Q(k - 1, N)])
     [] g = "geo" -> LET tot == Pow(R(2), N)[1] - 1 IN Tup([k \in 1..N + 1 |-> Q(Pow(R(2), k - 1)[1] - 1, tot)])
     [] g = "irr" -> Tup([k \in 1..N + 1 |-> Q((k - 1) * (k + 2), N * (N + 3))])
-Space == [d : 0..4, N : 1..(IF Thorough THEN 8 ELSE 5), g : {"uni", "geo", "irr"}, sub : 0..(IF Thorough THEN 4 ELSE 2), seed : {Seed}]
+Space == [d : 0..4, N : 1..(IF Thorough THEN 8 ELSE 5), g : {"uni", "geo", "irr"}, sub : 0..(IF Thorough THEN 5 ELSE 3), seed : {Seed}]
 Init == sc \in Space
 Next == UNCHANGED sc
 Coefs(s) == Tup([i \in 1..s.N + s.d |-> PV(s.seed, 1, i)])
